@@ -724,19 +724,32 @@ ComponentNameMap createComponentNamesMap(const ComponentPtr &component)
     return nameMap;
 }
 
-std::vector<UnitsPtr> referencedUnits(const ModelPtr &model, const UnitsPtr &units)
+void referencedUnits(const ModelPtr &model, const UnitsPtr &units, std::vector<UnitsPtr> &unitsOnPath, std::vector<UnitsPtr> &requiredUnits)
 {
-    std::vector<UnitsPtr> requiredUnits;
+    unitsOnPath.push_back(units);
 
     for (size_t index = 0; index < units->unitCount(); ++index) {
         const std::string ref = units->unitAttributeReference(index);
         if (!isStandardUnitName(ref)) {
+            // Skip units that do not exist and units that are defined in terms of themselves.
             auto refUnits = model->units(ref);
-            auto requiredUnitsUnits = referencedUnits(model, refUnits);
-            requiredUnits.insert(requiredUnits.end(), requiredUnitsUnits.begin(), requiredUnitsUnits.end());
-            requiredUnits.push_back(refUnits);
+            if ((refUnits != nullptr)
+                && (std::find(unitsOnPath.begin(), unitsOnPath.end(), refUnits) == unitsOnPath.end())) {
+                referencedUnits(model, refUnits, unitsOnPath, requiredUnits);
+                requiredUnits.push_back(refUnits);
+            }
         }
     }
+
+    unitsOnPath.pop_back();
+}
+
+std::vector<UnitsPtr> referencedUnits(const ModelPtr &model, const UnitsPtr &units)
+{
+    std::vector<UnitsPtr> requiredUnits;
+    std::vector<UnitsPtr> unitsOnPath;
+
+    referencedUnits(model, units, unitsOnPath, requiredUnits);
 
     return requiredUnits;
 }
